@@ -274,7 +274,8 @@ def main():
     # quick: histories of 3 that start with a registration (lookups on the initial registry are covered as
     # later steps); thorough: all histories of 3, and the histories of 4 that start with a registration or a clear
     if quick:
-        items = [(i, 3) for i in range(len(OPS)) if OPS[i][0].startswith('register')]
+        items = [(i, 3) for i in range(len(OPS)) if OPS[i][0].startswith('register')
+                 or OPS[i][0] in ('languages_for_file', 'language_for_file')]
     else:
         items = [(i, 4) for i in range(len(OPS)) if OPS[i][0].startswith(('register', 'clear'))]
         items += [(i, 3) for i in range(len(OPS)) if not OPS[i][0].startswith(('register', 'clear'))]
@@ -283,7 +284,7 @@ def main():
                                             REG.languages_for_file, REG.language_for_file, REG.register_generator,
                                             REG.generator_description, REG.clear_language_registrations,
                                             REG.clear_generator_registrations, REG.language_descriptions)
-    chk.cov['bounds'] = {'sequence_length': '3 (starting with a registration)' if quick else '4 after a registration or clear, 3 otherwise', 'operations': len(OPS), 'names': NAMES, 'patterns': PATTERNS, 'files': FILES}
+    chk.cov['bounds'] = {'sequence_length': '3 (starting with a registration or a file lookup)' if quick else '4 after a registration or clear, 3 otherwise', 'operations': len(OPS), 'names': NAMES, 'patterns': PATTERNS, 'files': FILES}
     chk.cov['outside_claim'] = ['longer histories', 'other names / patterns', 'entry points other than those installed']
     chk.assumptions = ['finite history space enumerated exhaustively (selectors unconstrained: z3 decides nothing)',
                        'reference = case-insensitive map model (verifx/props/c26.py)']
